@@ -77,11 +77,24 @@ def j_rules(P, E):
         if not _any_alias(ik, rk):
             r.violate(("J1", src.nid, "teardown removes a different key"),
                       "the key removed by the observer's teardown is not the key it was inserted under", body=teardown, line=rem[0].line)
-        # the key value is read under the serial guard
-        kdefs = [g for g in ik if g[1] in ("val", "ret", "param", "upvar")]
-        for g in ik:
-            if g[1] == "upvar" or not _hits(P, src, [(g[1], g[2], g[3])], "serial"):
-                pass
+    # the counter advances from itself only (an increment): a value derived from anything else
+    # (the size of the map, ..) can repeat while an earlier holder of that key is still registered
+    for i in sorted(src.reach):
+        for s_ in src.blocks[i]["stmts"]:
+            if s_["k"] == "assign" and len(s_["lhs"]) > 1 and "*" in s_["lhs"] and _hits(P, src, src.place_prov(s_["lhs"]), "serial"):
+                rv = s_["rv"]
+                ops = [rv[k] for k in ("a", "b", "op") if isinstance(rv.get(k), dict)]
+                leaves = set()
+                for o in ops:
+                    leaves |= src.value_sources(src.operand_prov(o))
+                foreign = [t for t in leaves if t[0] != "const" and not _hits(P, src, [t], "serial")]
+                r.instance(("J1", src.nid, "advance"), True, "serial store fed by %s" % sorted(src.term_name(t) for t in leaves))
+                if foreign:
+                    r.violate(("J1", src.nid, "serial not advanced from itself"),
+                              "the new value of the key counter derives from %s, not only from the counter: a key can be "
+                              "handed out again while its earlier holder is still registered (the newcomer overwrites it, "
+                              "either teardown removes the other)" % sorted(src.term_name(t) for t in foreign),
+                              body=src, line=s_.get("line"))
     # ---- J2: who may write the map
     n = 0
     for b in P.bodies.values():
